@@ -208,6 +208,41 @@ class CG:
                 w = name.replace('struct.', 'class.', 1)[:-len('::PlacementBuffer')] + '::shared_ptr_wrapper'
                 if w in mod.structs and mod.structs[w][0] is not None:
                     self.retyped[name] = (('struct', w), ent[0][0][1])
+        # generic rule: a named struct that is (a chain of single-member wrappers around) a byte array and that the
+        # module only ever reinterprets as ONE struct type T (e.g. __gnu_cxx::__aligned_buffer<T> inside make_shared's
+        # control block) is declared as { T; padding }
+        def byte_leaf(t, depth=0):
+            if depth > 6: return None
+            if t[0] == 'array' and t[2] == ('int', 8): return t[1]
+            if t[0] == 'struct':
+                e = mod.structs.get(t[1])
+                if e and e[0] is not None and len(e[0]) == 1: return byte_leaf(e[0][0], depth + 1)
+            if t[0] == 'lstruct' and len(t[1]) == 1: return byte_leaf(t[1][0], depth + 1)
+            return None
+        cands = {}
+        for name, ent in ([] if _os.environ.get('IR2C_NO_RETYPE') else mod.structs.items()):
+            if name in self.retyped or ent[0] is None or len(ent[0]) != 1: continue
+            if 'aligned_buffer' not in name and 'aligned_membuf' not in name: continue
+            n = byte_leaf(('struct', name))
+            if n: cands[name] = n
+        if cands and getattr(mod, 'text', None):
+            pat = re.compile(r'bitcast (%(?:"[^"]*"|[-a-zA-Z$._0-9]+))\* %\S+ to (%(?:"[^"]*"|[-a-zA-Z$._0-9]+))\*')
+            targets = {}
+            for m in pat.finditer(mod.text):
+                sname = m.group(1)[1:].strip('"'); tname = m.group(2)[1:].strip('"')
+                if sname in cands: targets.setdefault(sname, set()).add(tname)
+            for sname, ts in targets.items():
+                ts = {t for t in ts if t in mod.structs and mod.structs[t][0] is not None}
+                if len(ts) == 1:
+                    self.retyped[sname] = (('struct', list(ts)[0]), cands[sname])
+        # make_shared: std::_Sp_counted_ptr_inplace<T, ...>::_Impl = { __aligned_buffer<T> }: T is in the struct's NAME
+        for name, ent in ([] if _os.environ.get('IR2C_NO_RETYPE') else mod.structs.items()):
+            m = re.match(r'class\.std::_Sp_counted_ptr_inplace<(.+), std::allocator<void>, [^>]*>::_Impl$', name)
+            if not m or ent[0] is None or len(ent[0]) != 1 or ent[0][0][0] != 'struct' or ent[0][0][1] not in cands: continue
+            for pref in ('struct.', 'class.'):
+                tn = pref + m.group(1)
+                if tn in mod.structs and mod.structs[tn][0] is not None:
+                    self.retyped[ent[0][0][1]] = (('struct', tn), cands[ent[0][0][1]])
     def gname(self, g):
         g = g.strip('"') if not g.startswith('@') else g[1:].strip('"')
         if g in self.gnames: return self.gnames[g]
@@ -383,7 +418,7 @@ def join_multiline(lines):
     return out
 
 def parse_module(text):
-    mod = Module()
+    mod = Module(); mod.text = text
     lines = join_multiline(text.splitlines())
     i = 0; n = len(lines)
     # pass 1: struct types (needed before anything else)
@@ -1043,6 +1078,8 @@ class Gen:
             if atomic:
                 p.accept('syncscope')
                 order = p.next()[1]
+                if t == ('int', 64) and self.ptr_atomic(fg, toks):
+                    self.define(fg, d, t, '((uint64_t)(uintptr_t)__at_loadp((void**)%s, %d))' % (a, ORDERS[order]), code); return
                 self.define(fg, d, t, self.atomic_call('load', t, [a], order), code); return
             if d in fg.rawmove:
                 dn = fg.lname(d); fg.decls[dn] = 'void*'; fg.vtypes[d] = t
@@ -1057,6 +1094,8 @@ class Gen:
                 code.append('*(void**)%s = %s;' % (a, v)); return
             if atomic:
                 order = p.next()[1]
+                if t == ('int', 64) and self.ptr_atomic(fg, toks):
+                    code.append('__at_storep((void**)%s, (void*)(uintptr_t)%s, %d);' % (a, v, ORDERS[order])); return
                 code.append('%s;' % self.atomic_call('store', t, [a, v], order)); return
             code.append('*%s = %s;' % (a, v)); return
         if op == 'atomicrmw':
@@ -1065,6 +1104,8 @@ class Gen:
             a, pt = self.typed_value(p, fg); p.expect(',')
             v, t = self.typed_value(p, fg)
             order = p.next()[1]
+            if rop == 'xchg' and t == ('int', 64) and self.ptr_atomic(fg, toks):
+                self.define(fg, d, t, '((uint64_t)(uintptr_t)__at_xchgp((void**)%s, (void*)(uintptr_t)%s, %d))' % (a, v, ORDERS[order]), code); return
             self.define(fg, d, t, self.atomic_call(rop, t, [a, v], order), code); return
         if op == 'cmpxchg':
             weak = p.accept('weak'); p.accept('volatile')
@@ -1075,6 +1116,11 @@ class Gen:
             rt = ('lstruct', (t, I1), False)
             w = self.at_width(t)
             dn = fg.lname(d); fg.decls[dn] = cg.ctype(rt); fg.vtypes[d] = rt
+            if t == ('int', 64) and self.ptr_atomic(fg, toks):
+                tmp = fg.tmp('void*')
+                code.append('%s = (void*)(uintptr_t)%s; %s.f1 = __at_casp((void**)%s, &%s, (void*)(uintptr_t)%s, %d, %d, %d); %s.f0 = (uint64_t)(uintptr_t)%s;' %
+                            (tmp, c, dn, a, tmp, nv, ORDERS[so], ORDERS[fo], 1 if weak else 0, dn, tmp))
+                return
             code.append('%s.f0 = %s; %s.f1 = __at_cas%d((uint%d_t*)%s, &%s.f0, %s, %d, %d, %d);' %
                         (dn, c, dn, w, w, a, dn, nv, ORDERS[so], ORDERS[fo], 1 if weak else 0))
             return
@@ -1176,6 +1222,30 @@ class Gen:
         if pred == 'true': return '1'
         if pred == 'false': return '0'
         raise IRError('fcmp ' + pred)
+    def ptr_atomic(self, fg, toks):
+        """an i64 atomic whose address is `bitcast T** %p to i64*`: really an atomic on a pointer cell (clang lowers
+        std::atomic<T*> to i64). Use pointer-typed hooks so that CBMC keeps the provenance of the stored pointers."""
+        for k, v in toks:
+            if k == 'local' and v in fg.defs:
+                dt = fg.defs[v]
+                if len(dt) > 3 and dt[2][1] == 'bitcast':
+                    p = P(dt, self.mod); p.next(); p.next(); p.next()
+                    try:
+                        ft = p.parse_type(); p.next(); p.expect_ident('to'); tt = p.parse_type()
+                    except IRError:
+                        continue
+                    if tt != PTR(('int', 64)) or ft[0] != 'ptr': continue
+                    t = ft[1]
+                    for _ in range(12):      # the cell is the first leaf of the pointed-to type
+                        if t[0] == 'struct':
+                            ent = self.mod.structs.get(t[1])
+                            if not ent or not ent[0]: break
+                            t = ent[0][0]
+                        elif t[0] == 'lstruct' and t[1]: t = t[1][0]
+                        elif t[0] == 'array': t = t[2]
+                        else: break
+                    if t[0] == 'ptr': return True
+        return False
     def at_width(self, t):
         if t[0] == 'ptr': return 64
         if t[0] == 'int' and t[1] in (8, 16, 32, 64): return t[1]
@@ -1276,10 +1346,13 @@ class Gen:
                     dn = fg.lname(d); fg.decls[dn] = cg.ctype(rt); fg.vtypes[d] = rt
                     code.append('%s = (%s)malloc(sizeof(%s)); VERIF_ASSUME(%s != 0);' % (dn, cg.ctype(rt), cg.ctype(ty), dn))
                     result = ('stmt', None)
-            if result is None and callee_name == '_Znam' and d is not None and self.opts.new_array_max:
+            if result is None and callee_name in ('_Znam', '_Znwm') and d is not None and self.opts.new_array_max \
+               and not (callee_name == '_Znwm' and re.fullmatch(r'\d+(ULL|U)?', args[0][0])):
+                # (operator new with a non-constant size is std::vector / allocator storage: same treatment, no cookie)
                 # operator new[]: allocate a TYPED array object (cookie + elements) of constant size so that CBMC keeps
                 # element/field sensitivity; a symbolic-size or byte-typed array holding pointers explodes in the solver
                 hint = self.new_array_hint(fg, d)
+                if hint is not None and callee_name == '_Znwm' and hint[0] != 0: hint = None
                 if hint is not None:
                     cookie, et = hint
                     es = self.size_align(et)[0]
@@ -1566,7 +1639,7 @@ class Gen:
             for l in body:
                 m = pat.match(l)
                 if m:
-                    dpat = re.compile(r'^\s*' + re.escape(m.group(1)) + r' = bitcast (.+)\*\* (%[-\w.$"]+) to i8\*\*')
+                    dpat = re.compile(r'^\s*' + re.escape(m.group(1)) + r' = bitcast (.+)\* (%[-\w.$"]+) to i8\*\*')
                     for l2 in body:
                         m2 = dpat.match(l2)
                         if m2:
@@ -1574,7 +1647,15 @@ class Gen:
                                 t = P(lex(m2.group(1)), self.mod).parse_type()
                             except IRError:
                                 continue
-                            if self.size_align(t): return t
+                            # the destination is a T* cell, possibly wrapped in structs whose first member it is
+                            for _ in range(12):
+                                if t[0] == 'struct':
+                                    ent = self.mod.structs.get(t[1])
+                                    if not ent or not ent[0]: break
+                                    t = ent[0][0]
+                                elif t[0] == 'lstruct' and t[1]: t = t[1][0]
+                                else: break
+                            if t[0] == 'ptr' and self.size_align(t[1]): return t[1]
             return None
         t = cast_of(d) or stored_as(d)
         gep = re.compile(r'^\s*(%\S+) = getelementptr (?:inbounds )?i8, i8\* ' + re.escape(d) + r', i64 8\s*$')
@@ -1795,12 +1876,13 @@ def main():
     ap.add_argument('--no-devirt', action='store_true')
     ap.add_argument('--new-array-max', type=int, default=0, help='bytes given to every operator new[] of non-constant size (typed allocation)')
     ap.add_argument('--root', action='append', default=[], help='extra reachability root (function called only from C models)')
+    ap.add_argument('--unreachable', action='append', default=[], help='function claimed unreachable: body replaced by a failing check + assume(0)')
     ap.add_argument('--list-external', help='write external (undefined) symbol list here')
     ap.add_argument('--list-functions', help='write names of translated functions here')
     opts = ap.parse_args()
     text = open(opts.ll).read()
     mod = parse_module(text)
-    overrides = set(opts.override)
+    overrides = set(opts.override) | set(opts.unreachable)
     for e in opts.entry:
         if e not in mod.funcs: raise SystemExit('entry %s not in module' % e)
     live = reachable(mod, list(opts.entry) + list(opts.root), overrides)
@@ -1830,6 +1912,13 @@ def main():
         if n in ('malloc', 'free', 'memcpy', 'memmove', 'memset') and f['body'] is None:
             externals.append(n); continue     # prototypes come from verif_rt.h
         fn_protos.append(proto(f))
+        if n in opts.unreachable and f['body'] is not None:
+            ps = ', '.join('%s a%d' % (cg.ctype(t), k) for k, (t, _, _) in enumerate(f['params'])) or 'void'
+            rt_ = cg.ctype(f['ret'])
+            fn_bodies.append('%s %s(%s) {\n  VERIF_CHECK(0, "reached a function the harness declares unreachable: %s");\n  VERIF_ASSUME(0);\n%s}' %
+                             (rt_, cg.gname(n), ps, n[:60], '' if f['ret'] == VOID else '  { %s r_; return r_; }\n'))
+            if f['ret'] != VOID: fn_bodies[-1] = fn_bodies[-1].replace('{ %s r_;', '{ ' + rt_ + ' r_;')
+            continue
         if f['body'] is None or n in overrides:
             externals.append(n); continue
         try:
